@@ -156,6 +156,10 @@ func runC17(o *cli.Opts, run *evid.Run) {
 			return
 		}
 		out := filepath.Join(o.Scratch, fmt.Sprintf("c17-%d.lean", i))
+		if i%2 == 1 {
+			// the output path already holds an older, longer model (regenerating a committed file in place)
+			os.WriteFile(out, []byte(committed+strings.Repeat("-- stale tail of an older model\n", 2000)), 0o644)
+		}
 		res := proc.Run(bin, nil, 10*time.Minute, []string{"GOMAXPROCS=" + gmps[i]}, "extract-circuit", "--tree-depth", "30", "--batch-size", "4", "--output", out)
 		if res.Exit != 0 {
 			run.Violate(key, fmt.Sprintf("extract-circuit exits %d: %s", res.Exit, tailOf(res.Stderr)), nil)
